@@ -22,7 +22,7 @@ ASSUMPTIONS = [
     "determinant<LU> (and the default for n>4, which dispatches to it) is judged on matrices that need no pivoting; QR and the closed forms also on row-swapped ones",
 ]
 F = {"sum": 0, "product": 1, "min": 2, "max": 3, "norm": 4, "inner2": 5, "msum": 6, "mproduct": 7, "trace": 8, "inner1": 9}
-ARG = {"tensor": 0, "add": 1, "neg": 2, "scale": 3, "tailview": 4}
+ARG = {"tensor": 0, "add": 1, "neg": 2, "scale": 3, "tailview": 4, "te": 5, "ee": 6, "tv": 7}
 
 
 def configs(tier):
@@ -72,7 +72,7 @@ def cases(tier, cfg):
                     if tier == "thorough" and base:
                         args.append("scale")
                 if f == "inner2" and n in (W + 1, 3 * W + 1):
-                    args.append("add")
+                    args += ["add", "te", "ee", "tv"]      # (expression, tensor), (tensor, expression), both, (tensor, scaled expression)
                 for a in args:
                     if f in ("msum", "mproduct") and a != "tensor":
                         continue
